@@ -15,7 +15,7 @@ Update == /\ More /\ Ev.op = "update" /\ Ev.raised = "None"
           /\ Chk("drift_detected", chk', Ev.chk)
           /\ Adv
 UserReset == /\ More /\ Ev.op = "reset" /\ Reset /\ Counters /\ Adv
-Refused == /\ More /\ Ev.raised # "None" /\ (UNCHANGED phvars \/ PendingReset) /\ Counters /\ Adv
+Refused == /\ More /\ Ev.op = "bad" /\ Ev.raised = "ValueError" /\ (UNCHANGED phvars \/ PendingReset) /\ Counters /\ Adv
 Next == Update \/ UserReset \/ Refused
 Spec == Init /\ [][Next]_tvars
 ==========================================================================
